@@ -174,6 +174,9 @@ def tainted_leaves(p, t, root_params, under_sanitiser=False):
     if k == "elem":
         return tainted_leaves(p, t[1], root_params)
     if k in ("op",):
+        if t[1] == "comp" and t[2] and t[2][-1][0] != "unknown":
+            # a comprehension holds the values of its element expression (last operand), not its sources
+            return tainted_leaves(p, t[2][-1], root_params)
         for a in t[2]:
             out += tainted_leaves(p, a, root_params)
         return out
@@ -282,7 +285,7 @@ def run(report, p):
                     full = pr.inline(full, depth=2)
                     trav = {(fq, f.params[0])} if f.is_generator() and f.params else set()
                     bad += tainted_leaves(p, full, rps | trav)
-                    if any(s[0] == "call" and s[1].endswith(("set_of_file_paths",)) for s in subterms(full)) and not _under_relpath(full):
+                    if _occurs_unsanitised(full, "set_of_file_paths"):
                         bad.append("absolute recorded path (set_of_file_paths joins the history root)")
                 r2.check(not bad, f, call, f"ignore patterns are matched against a path containing the absolute location ({', '.join(sorted(set(bad)))[:160]}): ancestors matching a pattern change the result", witness=show(pr.origins(call.args[0], f)[0])[:300])
 
@@ -510,6 +513,29 @@ def _order_insensitive_consumer(comp: ast.comprehension) -> bool:
                 return True
             if nm == "sorted" and _sort_ok(u):
                 return True
+    return False
+
+
+def _occurs_unsanitised(t, suffix) -> bool:
+    """a call ...<suffix>() occurs in the term outside every sanitiser (relpath / basename / get_relative_file_path); a comprehension
+    contributes its element expression only"""
+    if not isinstance(t, tuple):
+        return False
+    k = t[0]
+    if k == "call":
+        if any(t[1].endswith(x) for x in SANITISERS):
+            return False
+        if t[1].endswith(suffix):
+            return True
+        return any(_occurs_unsanitised(a, suffix) for a in t[2]) or any(_occurs_unsanitised(a, suffix) for a in t[3].values()) or (t[5] is not None and _occurs_unsanitised(t[5], suffix))
+    if k in ("attr", "elem"):
+        return _occurs_unsanitised(t[1], suffix)
+    if k == "op":
+        if t[1] == "comp" and t[2] and t[2][-1][0] != "unknown":
+            return _occurs_unsanitised(t[2][-1], suffix)
+        return any(_occurs_unsanitised(a, suffix) for a in t[2])
+    if k == "alt":
+        return any(_occurs_unsanitised(a, suffix) for a in t[1])
     return False
 
 
